@@ -128,7 +128,7 @@ def run_delay(impl, us, times, qdt, ncols, x0=None, t0=0.0, dt=None, template=No
     # the template the run's queue was copied from must be untouched (read through the array it was constructed on)
     touched = bool(template is not None and getattr(template, '_verif_array', None) is not None and np.any(template._verif_array != 0))
     out = dict(rows=impl.rows(res.py_get_result()), consumed=st.consumed, overrun=st.overrun,
-               queue=_drain(fq, nr, ncols), queue_next_time=nqt, template_touched=touched)
+               queue=_drain(fq.py_copy(), nr, ncols), queue_next_time=nqt, template_touched=touched)
     impl.start()
     return out
 
